@@ -202,3 +202,35 @@ def stopIndex (thr : Option α) (fuel : Nat) (crit : Array α) : Nat :=
   (emLoop (fun (i : Nat) => (i + 1, crit.getD i 0)) (convStop thr) fuel 0 0 0).2
 end
 end BobEM
+
+namespace BobEM
+section
+variable {α : Type} [Add α] [Mul α] [Sub α] [Div α] [Neg α] [OfNat α 0] [OfNat α 1] [OfNat α 2]
+  [Max α] [LT α] [DecidableLT α] [LE α] [DecidableLE α] [Transc α] {C D : Nat}
+
+/-- `functools.reduce(operator.iadd, statistics)`: the first element accumulates the others -/
+def reduceIadd : List (Stats C D α) → Stats C D α
+  | [] => Stats.zero
+  | s :: rest => rest.foldl Stats.add s
+
+/-- one iteration of `GMMMachine.fit` on a Dask array: one `e_step` task per row block, then one
+`m_step` task that reduces the statistics and updates the machine -/
+def gmmMlIterBlocks (cfg : MlCfg (C+1) D α) (blocks : List (List (Fin D → α))) (p : Params (C+1) D α) :
+    Params (C+1) D α × α :=
+  let st := reduceIadd (blocks.map (eStep p))
+  (mlMStep cfg p st (Transc.ofNat st.t), st.ll / Transc.ofNat st.t)
+def gmmMlFitBlocks (cfg : MlCfg (C+1) D α) (thr : Option α) (fuel : Nat) (p0 : Params (C+1) D α)
+    (blocks : List (List (Fin D → α))) : Params (C+1) D α × Nat :=
+  emLoop (gmmMlIterBlocks cfg blocks) (convStop thr) fuel 0 0 p0
+
+/-- MAP training: in-memory and per-block iterations (`sq` selects the Spec / Code variance blend) -/
+def gmmMapIter (sq : α → α) (cfg : MapCfg (C+1) D α) (ubm : Params (C+1) D α) (xs : List (Fin D → α))
+    (p : Params (C+1) D α) : Params (C+1) D α × α :=
+  let st := eStep p xs
+  (mapMStepG sq cfg ubm p st (Transc.ofNat st.t), st.ll / Transc.ofNat st.t)
+def gmmMapIterBlocks (sq : α → α) (cfg : MapCfg (C+1) D α) (ubm : Params (C+1) D α)
+    (blocks : List (List (Fin D → α))) (p : Params (C+1) D α) : Params (C+1) D α × α :=
+  let st := reduceIadd (blocks.map (eStep p))
+  (mapMStepG sq cfg ubm p st (Transc.ofNat st.t), st.ll / Transc.ofNat st.t)
+end
+end BobEM
